@@ -32,7 +32,7 @@ TRUSTED = ['Coq 8.16.1 kernel + vm_compute (model evaluation); no axioms (Print 
            'the theorems hold for EVERY value of these parameters',
            'harness/src/c08.rs (snapshot comparer, history runner, minimiser) and props/c08.py (classification of failures)']
 UNMODELLED = ['per-operation soundness is NOT proved (stage S only: the oracle runs them on the real code) for: scroll_area_up/down over a PART of the layer '
-              'width and scroll_area_left/right (raw row splicing, known finding C08-scroll-area-raw-lines; the model answers "outside" = Err 99 and the '
+              'width (raw row splicing across rows, known finding C08-scroll-area-raw-lines; the model answers "outside" = Err 99 and the '
               'case is skipped in stage C), add_floating_layer, update_layer_properties, paste_sixel, add_font / set_font with an arbitrary BitFont',
               'insert/delete row and column are MODELLED and tied by stage C, but proved only as an exact round trip (rowcol_exact_roundtrip); they are not '
               'invariant under the document equivalence (rowcol_not_invariant, known finding C08-rowcol-raw-lines) and therefore not part of x_undo_redo_history',
@@ -67,24 +67,36 @@ CAT = {1: 'buffer-size', 2: 'modes', 3: 'palette', 4: 'fonts', 5: 'sauce', 6: 'l
        9: 'layer-size', 10: 'offset', 11: 'cell'}
 
 # ---------------------------------------------------------------------------------------------------------------
-# known classes (known_findings.d/C08.json): decided on the MINIMISED history
+# known classes (known_findings.d/C08.json): decided on the MINIMISED history, each by the PRECONDITION of its defect.
+# `facts` = the bit set harness/src/c08.rs::facts computes while re-running the minimised history on the real code (the state-dependent
+# preconditions: the same predicates as the Coq known classes known_sauce_size / known_addfont / known_setfont / known_fontslot, and the
+# geometry of the scrolled area); the order-dependent precondition of the row/column class is read off the operation names.
 ROWCOL = {'insrow', 'delrow', 'inscol', 'delcol'}
-SCROLL = {'scrup', 'scrdown', 'scrleft', 'scrright'}
+SCROLL = {'scrup', 'scrdown'}      # scroll_area_left / right are proved sound (Proofs/ScrollProofs.v): a failure there is a violation
 SETFONT = {'setfont', 'saucefont'}
 RESIZE = {'resize0', 'resize1', 'crop', 'croprect'}
+# records that store whole `lines` vectors / layer lists and put the STORED vectors back on redo (a stale shape)
+SNAPSHOT = {'palmode', 'ice', 'replfont', 'fontslot', 'remfont', 'rotate'}
+F_SCROLL_ONE_ROW, F_SCROLL_ROWS, F_SAUCE, F_ADDFONT, F_SETFONT, F_FONTSLOT = 1, 2, 4, 8, 16, 32
 
-def classify(code, cat, names, doc):
-    """signature of a failing minimised history"""
+def rowcol_then_snapshot(names):
+    """a row/column operation followed (later in the history) by an operation whose record re-imposes stored `lines` vectors"""
+    seen = False
+    for n in names:
+        if n in ROWCOL: seen = True
+        elif seen and n in SNAPSHOT: return True
+    return False
+
+def classify(code, cat, names, doc, facts=0):
+    """signature of a failing minimised history; a known signature only when the precondition of that defect holds on it"""
     kind = CODE.get(code, 'code%d' % code)
     ns = set(names)
-    sauce2 = doc.split()[6] == '2' if doc.startswith('B ') else False
-    # a SAUCE record whose size is not the buffer size: built that way, or stored by update_sauce_data (`sauce k w h`)
-    if cat == 'sauce' and ns & RESIZE and (sauce2 or 'sauce' in ns): return 'C08-resize-rewrites-sauce-size'
-    if cat == 'fonts' and ns & SETFONT: return 'C08-setfont-records-slot0'
-    if cat == 'fonts' and 'addfont' in ns: return 'C08-addfont-overwrites-slot'
-    if cat == 'fonts' and 'fontslot' in ns: return 'C08-fontslot-overwrites-slot'
-    if ns & ROWCOL and (cat in ('cell', 'layer-size', '') ): return 'C08-rowcol-raw-lines'
-    if ns & SCROLL and 'sel' in ns and cat in ('cell', ''): return 'C08-scroll-area-raw-lines'
+    if cat == 'sauce' and ns & RESIZE and facts & F_SAUCE: return 'C08-resize-rewrites-sauce-size'
+    if cat == 'fonts' and ns & SETFONT and facts & F_SETFONT: return 'C08-setfont-records-slot0'
+    if cat == 'fonts' and 'addfont' in ns and facts & F_ADDFONT: return 'C08-addfont-overwrites-slot'
+    if cat == 'fonts' and 'fontslot' in ns and facts & F_FONTSLOT: return 'C08-fontslot-overwrites-slot'
+    if cat in ('cell', 'layer-size', '') and rowcol_then_snapshot(names): return 'C08-rowcol-raw-lines'
+    if cat in ('cell', '') and ns & SCROLL and facts & F_SCROLL_ONE_ROW: return 'C08-scroll-area-raw-lines'
     return 'C08-%s%s:%s' % (kind, ('/' + cat) if cat else '', '+'.join(sorted(ns)))
 
 # ---------------------------------------------------------------------------------------------------------------
@@ -111,6 +123,18 @@ DIRECTED = [
     ('B 12 8 0 1 3 0 L 12 8 0 0 1 0 2 5 F 2 5 F 3 6', ['fontslot 2 3']),
     ('B 12 8 0 1 0 0 L 12 8 0 0 1 0 2 5', ['sel 2 1 5 2 0', 'scrup']),
     ('B 12 8 0 1 0 0 L 12 8 0 0 1 0 0 5', ['jleft', 'delcol', 'palmode 0']),
+    # insert / delete row and column with HIDDEN content (rows and columns stored outside `size`): every stored row takes part in redo and undo
+    ('B 80 25 0 1 0 0 L 80 25 0 0 1 0 2 7', ['lsize 0 80 20', 'inscol']),
+    ('B 80 25 0 1 0 0 L 80 25 0 0 1 0 2 7', ['lsize 0 80 20', 'caret 5 3', 'delcol']),
+    ('B 80 25 0 1 0 0 L 80 25 0 0 1 0 2 7', ['lsize 0 60 20', 'caret 70 22', 'inscol', 'delcol', 'insrow', 'delrow']),
+    ('B 12 8 0 1 0 0 L 12 8 0 0 1 0 4 5', ['caret 2 1', 'inscol']),
+    ('B 12 8 0 1 0 0 L 12 8 0 0 1 0 4 5', ['caret 2 1', 'delcol']),
+    ('B 12 8 0 1 0 0 L 12 8 0 0 1 0 4 5', ['caret 2 1', 'insrow']),
+    ('B 12 8 0 1 0 0 L 12 8 0 0 1 0 4 5', ['caret 2 1', 'delrow']),
+    ('B 12 8 0 1 0 0 L 12 8 0 0 1 0 4 5', ['caret 13 8', 'inscol', 'delrow', 'delcol', 'insrow']),
+    ('B 12 8 0 1 0 0 L 12 8 0 0 1 0 2 5', ['lsize 0 6 4', 'caret 2 1', 'inscol', 'delcol', 'insrow', 'delrow']),
+    ('B 12 8 0 1 0 0 L 12 8 0 0 1 0 2 5', ['lsize 0 6 4', 'caret 8 6', 'delcol', 'delrow', 'lsize 0 12 8']),
+    ('B 12 8 0 1 0 0 L 12 8 0 0 1 0 3 5', ['resize 0 6 4', 'lsize 0 5 3', 'caret 1 1', 'insrow', 'inscol']),
 ]
 
 def search(ctx, broken):
@@ -167,9 +191,11 @@ def search(ctx, broken):
             continue
         code, step, nmin = v[0], v[1], v[2]
         idx = v[3:3 + nmin]; det = v[3 + nmin:]
+        facts = 0
+        if len(det) >= 2 and det[-2] == -777: facts = det[-1]; det = det[:-2]
         names = [G.op_name(ops[i]) for i in idx]
         cat = CAT.get(det[0], '') if code in (3, 6, 9, 10) and det else ''
-        sig = classify(code, cat, [n for n in names if n not in ('caret', 'cur', 'mirror')], doc)
+        sig = classify(code, cat, [n for n in names if n not in ('caret', 'cur', 'mirror')], doc, facts)
         classes[sig] = classes.get(sig, 0) + 1
         failures.append({'signature': sig, 'input': hist_case(int(c.split()[1]), doc, [ops[i] for i in idx]),
                          'impl': v[:3] + det, 'expected': 'undo/redo restore the recorded snapshots',
@@ -390,10 +416,10 @@ LEVEL_TEXT = ('Machine-checked proof (Coq, closed under the global context), PAR
               'set_ice_mode and set_palette_mode (for any conversion), merge_layer_down, anchor_layer, stamp_layer_down, paste_clipboard_data, '
               'resize_buffer with layers, crop, crop_rect, add_selection_to_mask, inverse_selection, enumerate_selections, clear/erase selection and the '
               'wrappers reading the selection mask, flip x/y with the maps of the font table, rotate_layer, scroll_area_up/down over the whole layer '
-              'width. Where the code is wrong the theorem is stated outside a known class with a Coq witness inside it: set font in Unlimited/FixedSize mode '
+              'width, scroll_area_left/right. Where the code is wrong the theorem is stated outside a known class with a Coq witness inside it: set font in Unlimited/FixedSize mode '
               'when the caret page differs from slot 0, add font / change font slot onto an occupied slot, resize/crop with a SAUCE record of another size. '
               'Insert/delete row and column are modelled and proved as an exact round trip only (they are not invariant under the equivalence: witness). '
-              '(4) NOT proved (oracle on the real code only): scroll_area over part of the layer width and scroll_area_left/right, add_floating_layer, '
+              '(4) NOT proved (oracle on the real code only): scroll_area_up/down over part of the layer width, add_floating_layer, '
               'layer properties, sixels; five + one known defect classes are listed as known findings.')
 LEVEL_NOTE = ('Trusted: Coq kernel + vm_compute; translator/gen_undo.py (guard expressions of Layer::set_char/restore_char/can_set_char/get_char and '
               'AtomicUndoGuard::drop are translated, the statement skeletons of the layer primitives and of the undo machinery in editor/mod.rs are '
